@@ -66,7 +66,7 @@ def variant_tag(pat):
 
 class Tracer:
     def __init__(self, crate, classify, may_err=None, closure_mode=None, max_paths=4000, value_of_call=None,
-                 cond_events=(), cond_alias=None, inline_local=False):
+                 cond_events=(), cond_alias=None, inline_local=True):
         self.crate = crate
         # inline_local: an unlabelled call of a function of this crate whose body contains labelled events is replaced by the
         # paths of that body (bounded depth) - statements moved into a private helper stay visible to the rule
@@ -402,7 +402,8 @@ class Tracer:
             return self.exprs([f['e'] for f in e['fields']] + ([e['base']] if 'base' in e else []),
                               lambda: {('fall', (L,) if L else Z, 'unk')})
         if k in ('tuple', 'array'):
-            return self.exprs(e['elems'], lambda: {('fall', Z, 'unk')})
+            L = self.label(e) if k == 'tuple' else None
+            return self.exprs(e['elems'], lambda: {('fall', (L,) if L else Z, 'unk')})
         if k in ('ref', 'unary', 'cast', 'field', 'yield', 'repeat', 'become'):
             r = self.expr(e.get('e'))
             keep = k in ('ref',)
@@ -593,6 +594,14 @@ class Tracer:
         if k == 'block' and not c['stmts'] and 'tail' in c:
             return self.cond_eval(c['tail'])
         r = self.expr(c)
+        if self.cond_alias and isinstance(c, dict) and c.get('k') in ('binary', 'call'):
+            # a whole condition (a comparison, a predicate call) named by what it tests: alias -> label | (label, negated)
+            a = self.cond_alias(c)
+            if a:
+                n, neg = (a, False) if isinstance(a, str) else a
+                th = {(ex, t + (f'?{n}={int(not neg)}',) if ex == 'fall' else t, v) for (ex, t, v) in r}
+                el = {(ex, t + (f'?{n}={int(neg)}',) if ex == 'fall' else t, v) for (ex, t, v) in r}
+                return th, el
         if (self.cond_events or self.cond_alias) and isinstance(c, dict) and c.get('k') == 'call' and \
                 short(callee(c)) in ('is_some', 'is_none', 'is_ok', 'is_err') and c['args'] and c['args'][0].get('k') == 'path':
             n = self._cond_name(c['args'][0])
